@@ -18,7 +18,7 @@ ASSUMPTIONS = [
     "recursively and in order",
     "comparing a node with itself is outside the statement ('two distinct trees')",
 ]
-REQUIRED = ["pairs_with_identical_ids", "pairs_equal", "pairs_different", "difference_at_child_position_ge1", "difference_at_depth_ge2", "symmetric_checked", "subtree_pairs", "pairs_compared_before_the_edit", "inherited_map_pairs", "pairs_compared_outside_the_registry"]
+REQUIRED = ["boundary_pairs", "mapping_type_pairs", "pairs_with_identical_ids", "pairs_equal", "pairs_different", "difference_at_child_position_ge1", "difference_at_depth_ge2", "symmetric_checked", "subtree_pairs", "pairs_compared_before_the_edit", "inherited_map_pairs", "pairs_compared_outside_the_registry"]
 EXHAUSTIVE = {"quick": False, "thorough": False}
 
 KINDS = ("attr_reorder", "extras_reorder", "ns_reorder", "attr_type", "name", "content", "content_none", "tail", "prefix", "attr_add", "attr_del", "attr_val", "extras_add", "extras_val",
@@ -317,9 +317,108 @@ def inherited_map_pairs(ctx):
     emlkit.discard(a, b, same, *built)
 
 
+def boundary_pairs(ctx):
+    """Pairs that differ in two fields at once in such a way that a joined spelling of the two coincides (name 'eml:eml' without prefix
+    against name 'eml' with prefix 'eml'; content 'ab' + tail 'c' against 'a' + 'bc'; an attribute against an extras entry of the same
+    key): fields are compared field by field.  At the root, at an only child, at a third child."""
+    def two(make_a, make_b):
+        for place in ("root", "only-child", "third-child"):
+            trees = []
+            for make in (make_a, make_b):
+                x = make()
+                if place == "root":
+                    trees.append(x)
+                else:
+                    r = Node("dataset")
+                    if place == "third-child":
+                        r.add_child(Node("title", content="t"))
+                        r.add_child(Node("creator"))
+                    r.add_child(x)
+                    trees.append(r)
+            yield place, trees[0], trees[1]
+
+    def node(name, prefix=None, content=None, tail=None, attributes=None, extras=None, nsmap=None):
+        n = Node(name, content=content)
+        n.prefix = prefix
+        n.tail = tail
+        for k, v in (attributes or {}).items():
+            n.add_attribute(k, v)
+        for k, v in (extras or {}).items():
+            n.add_extras(k, v)
+        for k, v in (nsmap or {}).items():
+            n.add_namespace(k, v)
+        return n
+
+    cases = [
+        ("name-prefix", lambda: node("eml:eml"), lambda: node("eml", "eml")),
+        ("name-prefix", lambda: node("stmml:unitList"), lambda: node("unitList", "stmml")),
+        ("name-prefix", lambda: node("b", "p:a"), lambda: node("a:b", "p")),
+        ("name-prefix", lambda: node(":x"), lambda: node("x", "")),
+        ("name-prefix", lambda: node("x", ""), lambda: node("x", None)),
+        ("content-tail", lambda: node("para", None, "ab", "c"), lambda: node("para", None, "a", "bc")),
+        ("content-tail", lambda: node("para", None, "", "c"), lambda: node("para", None, "c", "")),
+        ("content-tail", lambda: node("para", None, None, "c"), lambda: node("para", None, "c", None)),
+        ("content-tail", lambda: node("para", None, "", None), lambda: node("para", None, None, "")),
+        ("attributes-extras", lambda: node("title", attributes={"lang": "en"}), lambda: node("title", extras={"lang": "en"})),
+        ("attributes-extras", lambda: node("title", attributes={"xml:lang": "en"}), lambda: node("title", extras={"xml:lang": "en"})),
+        ("attributes-nsmap", lambda: node("title", attributes={"p": "u"}), lambda: node("title", nsmap={"p": "u"})),
+        ("extras-nsmap", lambda: node("title", extras={"p": "u"}), lambda: node("title", nsmap={"p": "u"})),
+        ("key-value", lambda: node("title", attributes={"a": "b", "c": "d"}), lambda: node("title", attributes={"a": "d", "c": "b"})),
+        ("key-value", lambda: node("title", attributes={"ab": "c"}), lambda: node("title", attributes={"a": "bc"})),
+        ("key-value", lambda: node("title", attributes={"a": ""}), lambda: node("title", attributes={"": "a"})),
+    ]
+    for what, make_a, make_b in cases:
+        for place, a, b in two(make_a, make_b):
+            ask(ctx, a, b, lambda: {"boundary_pair": what, "place": place}, f"boundary-pair:{what}")
+            ctx.count("boundary_pairs")
+            emlkit.discard(a, b)
+
+
+def mapping_type_pairs(ctx):
+    """The three dictionaries of a node are the caller's to assign (public setters): two nodes whose dictionaries hold the same entries
+    agree in that field, whichever mapping type holds them and in whichever order the entries were put in."""
+    import collections
+    import types
+
+    class Attrs(dict):
+        pass
+
+    items = [("id", "a"), ("scope", "document"), ("system", "knb")]
+    makers = {
+        "dict": lambda it: dict(it),
+        "dict-reversed": lambda it: dict(reversed(it)),
+        "OrderedDict": lambda it: collections.OrderedDict(it),
+        "OrderedDict-reversed": lambda it: collections.OrderedDict(reversed(it)),
+        "dict-subclass": lambda it: Attrs(it),
+        "ChainMap": lambda it: collections.ChainMap(dict(it[:1]), dict(it[1:])),
+        "defaultdict": lambda it: collections.defaultdict(str, it),
+    }
+    for field in ("attributes", "extras", "nsmap"):
+        for ka, ma in makers.items():
+            for kb, mb in makers.items():
+                for differ in (False, True):
+                    for place in ("root", "child"):
+                        trees = []
+                        for mk, it in ((ma, items), (mb, items[:-1] + [("system", "other")] if differ else items)):
+                            x = Node("creator", content=None)
+                            setattr(x, field, mk(list(it)))
+                            if place == "child":
+                                r = Node("dataset")
+                                r.children.append(x)
+                                x.parent = r
+                                x = r
+                            trees.append(x)
+                        a, b = trees
+                        ask(ctx, a, b, lambda: {"mapping_types": [field, ka, kb, differ, place]}, f"mapping-type-pair:{field}")
+                        ctx.count("mapping_type_pairs")
+                        emlkit.discard(a, b)
+
+
 def run(ctx, params):
     rng = ctx.rng
     inherited_map_pairs(ctx)
+    boundary_pairs(ctx)
+    mapping_type_pairs(ctx)
     prev = None
     for i in range(params["trees"]):
         size = rng.choice([1, 2, 3, 4, 6, 9, 12, 20, 45])
@@ -376,6 +475,11 @@ def run(ctx, params):
 def replay(ctx, witness):
     if "inherited_maps" in witness:
         inherited_map_pairs(ctx)
+        ctx.distinct(1)
+        ctx.distinct(2)
+        return
+    if "boundary_pair" in witness or "mapping_types" in witness:
+        boundary_pairs(ctx) if "boundary_pair" in witness else mapping_type_pairs(ctx)
         ctx.distinct(1)
         ctx.distinct(2)
         return
